@@ -15,9 +15,12 @@ from vlib import unitsref as U
 
 R_SI = 8.314472          # J/(mol K): value documented in pgradd/Consts.py
 
-ENERGY_UNITS = ['J/mol', 'kJ/mol', 'cal/mol', 'kcal/mol', 'eV/molecule', 'MJ/kmol', 'kcal/kmol', 'mJ/mmol']
-ENTROPY_UNITS = ['J/(mol K)', 'J/mol/K', 'cal/(mol*K)', 'kcal/(mol K)', 'kJ/(mol K)', 'eV/molecule/K', 'cal/mol/K']
-TEMP_UNITS = ['K', 'mK', 'kK']
+_PFX = ['Y', 'Z', 'E', 'P', 'T', 'G', 'M', 'k', 'h', 'da', 'd', 'c', 'm', 'u', 'n', 'p', 'f', 'a', 'z', 'y']
+ENERGY_UNITS = ['J/mol', 'kJ/mol', 'cal/mol', 'kcal/mol', 'eV/molecule', 'MJ/kmol', 'kcal/kmol', 'mJ/mmol'] + \
+    ['%sJ/mol' % p for p in _PFX] + ['%sJ/molecule' % p for p in ('a', 'z', 'f', 'y')] + ['J/%smol' % p for p in ('k', 'm', 'u', 'da')]
+ENTROPY_UNITS = ['J/(mol K)', 'J/mol/K', 'cal/(mol*K)', 'kcal/(mol K)', 'kJ/(mol K)', 'eV/molecule/K', 'cal/mol/K'] + \
+    ['%sJ/(mol K)' % p for p in _PFX] + ['%sJ/(molecule K)' % p for p in ('a', 'z', 'y')] + ['%scal/(mol K)' % p for p in ('k', 'm', 'u', 'h', 'd')]
+TEMP_UNITS = ['K', 'mK', 'kK', 'cK', 'dK', 'daK', 'hK']
 
 _factor = {}
 
@@ -156,7 +159,9 @@ class TempLib(object):
             f.write(SCHEME)
 
     def write(self, fn, text):
-        with open(os.path.join(self.dir, fn), 'w') as f:
+        path = os.path.join(self.dir, fn)
+        os.makedirs(os.path.dirname(path), exist_ok=True)
+        with open(path, 'w') as f:
             f.write(text)
 
     def path(self, fn='library.yaml'):
